@@ -64,34 +64,34 @@ def subsets(n, rng, limit):
 # ----------------------------------------------------------------------------
 # discrete components on the real code
 # ----------------------------------------------------------------------------
-def run_discrete(con, dirs, eps, pool, order, pairs):
-    """returns dict of everything observable: pareto/eps compare, same_box per pair, archive members, eps-box archive, ranks"""
-    from platypus import ParetoDominance, EpsilonDominance, Archive, EpsilonBoxArchive, nondominated_sort
-    p = plat.mk_problem(len(dirs), dirs, nconstrs=1 if con else 0)
-    objs = [plat.mk_solution(p, o, cv) for o, cv in pool]
+def snapshot(objs, pd, ed, eps, order, pairs):
+    """everything observable about the discrete components for the CURRENT state of the objects / their problem.
+    pd, ed: the ParetoDominance / EpsilonDominance instances to use for the pair comparisons; Archive(), nondominated()
+    and nondominated_sort go through the library's own default-argument comparator instances"""
+    from platypus import Archive, EpsilonBoxArchive, nondominated_sort, nondominated
     ident = {id(s): i for i, s in enumerate(objs)}
     out = {"pareto": [], "eps": [], "box": []}
-    pd, ed = ParetoDominance(), EpsilonDominance(list(eps))
     for i, j in pairs:
         out["pareto"].append(pd.compare(objs[i], objs[j]))
         try:
             out["eps"].append(ed.compare(objs[i], objs[j]))
-        except (IndexError, ZeroDivisionError, OverflowError, ValueError) as e:
+        except (IndexError, ZeroDivisionError, OverflowError, ValueError):
             out["eps"].append(None)
         try:
             out["box"].append(bool(ed.same_box(objs[i], objs[j])))
-        except (IndexError, ZeroDivisionError, OverflowError, ValueError) as e:
+        except (IndexError, ZeroDivisionError, OverflowError, ValueError):
             out["box"].append(None)
     pop = [objs[i] for i in order]
     a = Archive()
     a += pop
     out["arch"] = [ident[id(s)] for s in a]
+    out["nd"] = [ident[id(s)] for s in nondominated(pop)]
     try:
         eb = EpsilonBoxArchive(list(eps))
         for s in pop:
             eb.add(s)
         out["ebox"] = ([ident[id(s)] for s in eb], eb.improvements)
-    except (IndexError, ZeroDivisionError, OverflowError, ValueError) as e:
+    except (IndexError, ZeroDivisionError, OverflowError, ValueError):
         out["ebox"] = None
     try:
         nondominated_sort(pop)
@@ -101,30 +101,82 @@ def run_discrete(con, dirs, eps, pool, order, pairs):
     return out
 
 
+def run_discrete(con, dirs, eps, pool, order, pairs):
+    """fresh Problem, fresh Solution objects, fresh comparator instances"""
+    from platypus import ParetoDominance, EpsilonDominance
+    p = plat.mk_problem(len(dirs), dirs, nconstrs=1 if con else 0)
+    objs = [plat.mk_solution(p, o, cv) for o, cv in pool]
+    return snapshot(objs, ParetoDominance(), EpsilonDominance(list(eps)), eps, order, pairs)
+
+
+def flip_in_place(p, sols, J):
+    """negate the objectives in J on the SAME Solution objects and flip problem.directions in place on the SAME Problem"""
+    from platypus import Direction
+    for s in sols:
+        for k, j in enumerate(J):
+            if j:
+                s.objectives[k] = -s.objectives[k]
+    for k, j in enumerate(J):
+        if j:
+            p.directions[k] = Direction.MINIMIZE if p.directions[k] == Direction.MAXIMIZE else Direction.MAXIMIZE
+
+
+def run_discrete_in_place(con, dirs, J, eps, pool, order, pairs):
+    """original, flipped IN PLACE (same Problem, same Solution objects, the SAME comparator instances, no other problem
+    seen in between), and flipped back"""
+    from platypus import ParetoDominance, EpsilonDominance
+    p = plat.mk_problem(len(dirs), dirs, nconstrs=1 if con else 0)
+    objs = [plat.mk_solution(p, o, cv) for o, cv in pool]
+    pd, ed = ParetoDominance(), EpsilonDominance(list(eps))
+    a = snapshot(objs, pd, ed, eps, order, pairs)
+    flip_in_place(p, objs, J)
+    b = snapshot(objs, pd, ed, eps, order, pairs)
+    flip_in_place(p, objs, J)
+    c = snapshot(objs, pd, ed, eps, order, pairs)
+    return a, b, c
+
+
 def disc_case_json(con, dirs, J, eps, pool, order, pairs):
     return {"con": con, "dirs": dirs, "J": J, "eps": [float(e).hex() for e in eps], "pool": [[[float(x).hex() for x in o], float(cv).hex()] for o, cv in pool],
             "order": order, "pairs": [list(p) for p in pairs]}
 
 
-def check_discrete(ctx, con, dirs, J, eps, pool, order, pairs, tag):
-    """metamorphic oracle; returns (orig, flipped) observations"""
-    a = run_discrete(con, dirs, eps, pool, order, pairs)
-    b = run_discrete(con, flip_dirs(J, dirs), eps, [(flip_objs(J, o), cv) for o, cv in pool], order, pairs)
-    ctx.count(2)
-    rp = {"kind": "discrete", "case": disc_case_json(con, dirs, J, eps, pool, order, pairs)}
-    desc = "dirs(maximize)=%r J=%r eps=%r constrained=%r pool=%r order=%r" % (dirs, J, eps, con, pool, order)
-    for key, name in (("pareto", "pareto:compare-changes-under-negation"), ("eps", "epsilon-dominance:compare-changes-under-negation"),
-                      ("box", "epsilon-dominance:same_box-changes-under-negation")):
+DISC_KEYS = (("pareto", "pareto:compare-changes-under-negation"), ("eps", "epsilon-dominance:compare-changes-under-negation"),
+             ("box", "epsilon-dominance:same_box-changes-under-negation"))
+
+
+def compare_snapshots(ctx, a, b, tag, desc, pairs, rp):
+    for key, name in DISC_KEYS:
         for k, (x, y) in enumerate(zip(a[key], b[key])):
             if x != y:
                 ctx.violation(name, "%s %s of objects %r: %r, after negating objectives J and flipping their directions: %r; %s" % (tag, key, pairs[k], x, y, desc), rp)
                 break
     if a["arch"] != b["arch"]:
         ctx.violation("archive:membership-changes-under-negation", "%s Archive members %r vs %r; %s" % (tag, a["arch"], b["arch"], desc), rp)
+    if a["nd"] != b["nd"]:
+        ctx.violation("archive:membership-changes-under-negation", "%s nondominated() %r vs %r; %s" % (tag, a["nd"], b["nd"], desc), rp)
     if a["ebox"] != b["ebox"]:
         ctx.violation("epsilon-box-archive:changes-under-negation", "%s EpsilonBoxArchive (members, improvements) %r vs %r; %s" % (tag, a["ebox"], b["ebox"], desc), rp)
     if a["ranks"] != b["ranks"]:
         ctx.violation("rank:changes-under-negation", "%s nondominated_sort ranks %r vs %r; %s" % (tag, a["ranks"], b["ranks"], desc), rp)
+
+
+def check_discrete(ctx, con, dirs, J, eps, pool, order, pairs, tag):
+    """metamorphic oracle, two forms: (1) a fresh Problem / fresh objects for the flipped formulation; (2) IN PLACE: the same
+    Solution objects negated, problem.directions flipped on the same Problem object, the same comparator instances (and the
+    library's default-argument instances) re-used, then flipped back.  Returns (orig, flipped) of form (1)."""
+    rp = {"kind": "discrete", "case": disc_case_json(con, dirs, J, eps, pool, order, pairs)}
+    desc = "dirs(maximize)=%r J=%r eps=%r constrained=%r pool=%r order=%r" % (dirs, J, eps, con, pool, order)
+    # in place first: the library's shared comparator instances have then last seen THIS problem
+    a1, b1, c1 = run_discrete_in_place(con, dirs, J, eps, pool, order, pairs)
+    compare_snapshots(ctx, a1, b1, tag + "[in place: same Problem/Solution objects, same comparator instances]", desc, pairs, rp)
+    compare_snapshots(ctx, a1, c1, tag + "[in place, flipped back]", desc, pairs, rp)
+    a = run_discrete(con, dirs, eps, pool, order, pairs)
+    b = run_discrete(con, flip_dirs(J, dirs), eps, [(flip_objs(J, o), cv) for o, cv in pool], order, pairs)
+    ctx.count(5)
+    compare_snapshots(ctx, a, b, tag + "[fresh problem]", desc, pairs, rp)
+    if a != a1:
+        ctx.violation("discrete:result-depends-on-comparator-history", "%s the same input gives %r on fresh objects but %r on another set of fresh objects; %s" % (tag, a, a1, desc), rp)
     return a, b
 
 
@@ -195,6 +247,54 @@ def run_ind(nobjs, dirs, ref, st, lo, hi):
     return out
 
 
+def run_ind_objs(p, robjs, sobjs, nobjs, lo, hi, ev):
+    """all indicators on the GIVEN objects (shared between the indicators); ev: a HypervolumeFitnessEvaluator instance to re-use"""
+    from platypus import EpsilonIndicator, GenerationalDistance, InvertedGenerationalDistance, Hypervolume
+
+    def guard(f):
+        try:
+            with c15.time_limit(10.0):
+                return ("ok", f())
+        except c15.CallTimeout:
+            return ("timeout",)
+        except Exception as e:  # noqa
+            return ("err", ERRMAP.get(type(e).__name__, "other:" + type(e).__name__), "%s: %s" % (type(e).__name__, e))
+    out = {}
+    out["eps"] = guard(lambda: EpsilonIndicator(robjs).calculate(sobjs))
+    if nobjs >= 2:
+        out["hvr"] = guard(lambda: Hypervolume(reference_set=robjs).calculate(sobjs))
+        out["hvb"] = guard(lambda: Hypervolume(minimum=list(lo), maximum=list(hi)).calculate(sobjs))
+    out["gd2"] = guard(lambda: GenerationalDistance(robjs, d=2.0).calculate(sobjs))
+    out["igd2"] = guard(lambda: InvertedGenerationalDistance(robjs, d=2.0).calculate(sobjs))
+    out["gd"] = guard(lambda: GenerationalDistance(robjs).calculate(sobjs))
+    out["igd"] = guard(lambda: InvertedGenerationalDistance(robjs).calculate(sobjs))
+
+    def fitness():
+        fs, seen = [], set()
+        for s in sobjs:
+            if s.constraint_violation == 0.0 and id(s) not in seen:
+                seen.add(id(s))
+                fs.append(s)
+        ev.evaluate(fs)
+        return [s.fitness for s in fs]
+    out["ibea"] = guard(fitness)
+    return out
+
+
+def run_ind_in_place(nobjs, dirs, J, ref, st, lo, hi):
+    """original, then the SAME Solution objects negated and the SAME Problem's directions flipped in place (indicator objects
+    must be rebuilt because their bounds are fixed at construction; the fitness evaluator instance is re-used)"""
+    from platypus.core import HypervolumeFitnessEvaluator
+    p, robjs, sobjs = c16.build(nobjs, dirs, ref, st)
+    ev = HypervolumeFitnessEvaluator()
+    a = run_ind_objs(p, robjs, sobjs, nobjs, lo, hi, ev)
+    uniq = list({id(s): s for s in robjs + sobjs}.values())
+    flip_in_place(p, uniq, J)
+    lo2, hi2 = flip_bounds(J, lo, hi)
+    b = run_ind_objs(p, robjs, sobjs, nobjs, lo2, hi2, ev)
+    return a, b
+
+
 def same_result(x, y, exact, tol=1e-9):
     if x[0] != y[0]:
         return False
@@ -221,18 +321,24 @@ def ind_case_json(nobjs, dirs, J, ref, st, lo, hi):
     return j
 
 
-def check_ind(ctx, nobjs, dirs, J, ref, st, lo, hi, exact, tag):
-    a = run_ind(nobjs, dirs, ref, st, lo, hi)
-    lo2, hi2 = flip_bounds(J, lo, hi)
-    b = run_ind(nobjs, flip_dirs(J, dirs), flip_members(J, ref), flip_members(J, st), lo2, hi2)
-    ctx.count(2 * len(a))
-    rp = {"kind": "indicator", "case": ind_case_json(nobjs, dirs, J, ref, st, lo, hi), "exact": exact}
+def compare_ind(ctx, a, b, exact, tag, J, rp, what):
     for name in a:
         if name == "ibea" and a[name][0] == "err" and b[name][0] == "err":
             continue
         if not same_result(a[name], b[name], exact and name != "ibea"):
-            ctx.violation(KEYS[name], "%s %s = %r, after negating objectives J=%r and flipping their directions: %r; %r bounds=%r" % (
-                tag, name, a[name][1:], J, b[name][1:], c16.show(nobjs, dirs, ref, st), (lo, hi)), rp)
+            ctx.violation(KEYS[name], "%s %s = %r, after negating objectives J=%r and flipping their directions: %r; %s" % (tag, name, a[name][1:], J, b[name][1:], what), rp)
+
+
+def check_ind(ctx, nobjs, dirs, J, ref, st, lo, hi, exact, tag):
+    a = run_ind(nobjs, dirs, ref, st, lo, hi)
+    lo2, hi2 = flip_bounds(J, lo, hi)
+    b = run_ind(nobjs, flip_dirs(J, dirs), flip_members(J, ref), flip_members(J, st), lo2, hi2)
+    rp = {"kind": "indicator", "case": ind_case_json(nobjs, dirs, J, ref, st, lo, hi), "exact": exact}
+    what = "%r bounds=%r" % (c16.show(nobjs, dirs, ref, st), (lo, hi))
+    compare_ind(ctx, a, b, exact, tag + "[fresh objects]", J, rp, what)
+    a1, b1 = run_ind_in_place(nobjs, dirs, J, ref, st, lo, hi)
+    ctx.count(2 * len(a) + 2 * len(a1))
+    compare_ind(ctx, a1, b1, exact, tag + "[in place: same Problem and Solution objects]", J, rp, what)
     return a, b
 
 
@@ -389,6 +495,8 @@ def run(ctx):
                 "objects) through EpsilonIndicator, Hypervolume(reference_set), Hypervolume(minimum, maximum), GD, IGD and HypervolumeFitnessEvaluator; kept only if every float operation "
                 "is exact (C15/C16 criteria), else discarded and counted; plus arbitrary floats (oracle only, 1e-9). All subsets J for <= 3 objectives, up to 5 random ones beyond. "
                 "non-trivial = J non-empty AND (discrete: some pair is comparable; indicators: accepted reference set and a feasible member); distinct by full input. "
+                "Every case is ALSO run IN PLACE: the same Solution objects negated, problem.directions flipped on the same Problem object, the same ParetoDominance / EpsilonDominance / "
+                "fitness-evaluator instances and the library's default-argument comparator instances re-used with no other problem in between, then flipped back. "
                 "evaluations counts runs of the real code (one per form and component)")
     imports = ["Base.Num", "Model.Dominance", "Model.Archive", "Model.Epsilon", "Model.Indicators", "Model.Hypervolume", "Model.Negation", "Harness.H16", "Harness.H10"]
     for name, typ, fn, lits, cs in (("discrete", "c10disc", "c10_disc_check", dl, dcs), ("indicators", "c10ind", "c10_ind_check", il, ics)):
